@@ -47,6 +47,9 @@ class ModeBase:
     def __init__(self, case):
         self.case = case; self.results = {}; self.inputs = {}; self.notes = {}
     def result(self, name, value): self.results[name] = value
+    def result_sorted(self, name, values):
+        """order-insensitive witness (multiset of values): compared after sorting in both modes"""
+        self.results[name] = {'__sorted__': list(values)}
     def note(self, k, v=True): self.notes[k] = v
     def mod(self, name):
         full = {'reference': 'bct.algorithms.reference', 'modularity': 'bct.algorithms.modularity', 'distance': 'bct.algorithms.distance',
@@ -89,6 +92,9 @@ class SymMode(ModeBase):
     def truth_value(self, c):
         """fork on a condition (harness-level case split)"""
         return self.eng.branch(c)
+    def simplify(self, x):
+        from .ir import T
+        return self.eng.simplify(x) if isinstance(x, T) else x
     def close(self, a, b, tol=Fraction(1, 10**9)):
         from . import sc
         if tol == 0: return sc.eq(a, b)
@@ -123,6 +129,7 @@ class ConcMode(ModeBase):
     def assume(self, cond):
         if not bool(cond): raise AssumptionFailed('assumption does not hold for the replayed input')
     def int_value(self, x): return int(x)
+    def simplify(self, x): return x
     def truth_value(self, c): return bool(c)
     def close(self, a, b, tol=Fraction(1, 10**9)):
         a, b = float(a), float(b)
@@ -171,7 +178,9 @@ def eval_value(v, env):
     if isinstance(v, np.ndarray):
         return [eval_value(x, env) for x in (v.view(np.ndarray) if v.ndim else [v[()]])]
     if isinstance(v, (list, tuple)): return [eval_value(x, env) for x in v]
-    if isinstance(v, dict): return {k: eval_value(x, env) for k, x in v.items()}
+    if isinstance(v, dict):
+        if '__sorted__' in v: return sorted(float(eval_value(x, env)) for x in v['__sorted__'])
+        return {k: eval_value(x, env) for k, x in v.items()}
     if isinstance(v, (T, sc.Ext)): return sc.evaluate(v, env)
     return v
 
@@ -327,7 +336,7 @@ def run_concrete(hname, case, inputs, script, timeout=20):
         try: mode.set_hook(None)
         except Exception: pass
     out['violations'] = mode.violations; out['checked'] = mode.checked
-    out['results'] = jsonable(mode.results)
+    out['results'] = jsonable({k: (sorted(float(x) for x in v['__sorted__']) if isinstance(v, dict) and '__sorted__' in v else v) for k, v in mode.results.items()})
     return out
 
 
